@@ -19,6 +19,14 @@ seeks and a change of the retention do not, which is proved below for the operat
 deliveries alone, and which the driver evaluates on every step of every replayed history for the
 others (pull, publish, ack, nack, deadline changes, dead-letter sweep, prune and expiry jobs,
 subscription creation and deletion).
+
+Later sections remove the run-time side for everything but the seeks: `C05_ordered_ties` is the same
+global statement for the obligation `Ord2.stepOk2`, which has no clock assumption (rows made in one
+transaction share their publish time: several deliveries dead-lettered at once); `C05_fragment` proves
+the property outright for every history without seeks and dead-letter policies; and `C05_fragment_dl`
+proves it outright — no clock assumption, no refinement hypothesis — for *every history without a
+Seek*, dead-letter policies and equal publish times included (two state guards: a client acknowledges
+only ids it was handed; a `LIMIT`ed round of a job that deletes deliveries is tie-closed).
 -/
 import Mmmbbb.Properties.C01
 import Mmmbbb.Proofs.Ordered
